@@ -64,6 +64,11 @@ func enumerateSingle(t *testing.T, prop, part string, prog Case, shard, nshards 
 	return true
 }
 
+func envInt(name string) int {
+	v, _ := strconv.Atoi(os.Getenv(name))
+	return v
+}
+
 func shardInfo() (int, int) {
 	s, _ := strconv.Atoi(os.Getenv("VERIF_SHARD"))
 	n, _ := strconv.Atoi(os.Getenv("VERIF_NSHARDS"))
